@@ -52,20 +52,21 @@ type pending struct {
 }
 
 type Ctx struct {
-	Prop     string
-	Tier     string
-	Seed     int64
-	Rng      *rand.Rand
-	D        *Driver
-	R        *Result
-	distinct map[string]struct{}
-	queue    []pending
-	known    map[string]bool
-	N        int // case budget for this tier
-	maxKeep  int
-	Start    time.Time
-	Out      string
-	Rule     string
+	Prop                string
+	Tier                string
+	Seed                int64
+	Rng                 *rand.Rand
+	D                   *Driver
+	R                   *Result
+	distinct            map[string]struct{}
+	inCase, caseCounted bool
+	queue               []pending
+	known               map[string]bool
+	N                   int // case budget for this tier
+	maxKeep             int
+	Start               time.Time
+	Out                 string
+	Rule                string
 }
 
 func NewCtx(prop, tier string, seed int64, driverPath string) (*Ctx, error) {
@@ -105,7 +106,17 @@ func (c *Ctx) LoadKnown(path string) {
 func (c *Ctx) Class(label string) { c.R.Classes[label]++ }
 
 // Distinct records a canonical key of a non-trivial case.
-func (c *Ctx) Distinct(key string) { c.distinct[key] = struct{}{} }
+// Distinct counts one distinct non-trivial case.  While the callback of one evaluated case runs
+// only the first key counts: a case is one case, however many stages describe it.
+func (c *Ctx) Distinct(key string) {
+	if c.inCase {
+		if c.caseCounted {
+			return
+		}
+		c.caseCounted = true
+	}
+	c.distinct[key] = struct{}{}
+}
 
 func (c *Ctx) Sample(v interface{}) {
 	if len(c.R.Samples) < 8 {
